@@ -45,8 +45,9 @@ func be32(x *big.Int) []byte {
 }
 
 type c06ctx struct {
-	r        *core.Result
-	orderChk int
+	r           *core.Result
+	orderChk    int
+	unsafeFirst bool
 }
 
 // compressed checks one 32-byte (or other length) string through SetBytes and ReadPoint.
@@ -57,6 +58,13 @@ func (c *c06ctx) compressed(buf []byte, deep bool) (accepted bool) {
 		want = refDecode(new(big.Int).SetBytes(buf))
 	}
 	in := fmt.Sprintf("%x [len %d]", buf, len(buf))
+	// history: the same bytes first go through the unchecked decoders; what they do must not influence the
+	// validated ones afterwards
+	if c.unsafeFirst {
+		var u banderwagon.Element
+		guard(r, "c06.panic", "banderwagon.Element.SetBytesUnsafe", in, func() { u.SetBytesUnsafe(append([]byte(nil), buf...)) })
+		in += " after SetBytesUnsafe of the same bytes"
+	}
 	for _, api := range []string{"banderwagon.Element.SetBytes", "common.ReadPoint"} {
 		var e banderwagon.Element
 		var err error
@@ -198,6 +206,7 @@ func c06Units(ctx *core.Ctx) []core.Unit {
 			nacc := 0
 			for x := sh; x < lim; x += shards {
 				xb := be32(bi(x))
+				c.unsafeFirst = (x/shards)%4 == 3 // every fourth input is first seen by the unchecked decoder
 				if c.compressed(xb, x%997 == 0) {
 					nacc++
 					r.Nontrivial++
@@ -246,6 +255,12 @@ func c06Units(ctx *core.Ctx) []core.Unit {
 			"31468782818807366dbbcd20b9f10f0d5b93f22e33fe49b450dfbddaf3ba6a9b", "6bfc4097e4874cdddebe74e041fcd329d8455278cd42b6dd4f40b042d4fc466b"}
 		for _, s := range append(good, bad...) {
 			b, _ := hex.DecodeString(s)
+			c.unsafeFirst = true
+			c.compressed(b, false)
+			var tu banderwagon.Element
+			tu.SetBytesUncompressed(append(append([]byte(nil), b...), make([]byte, 32)...), true) // trusted decode of garbage y first
+			c.uncompressed(b)
+			c.unsafeFirst = false
 			acc := c.compressed(b, true)
 			r.Nontrivial++
 			c.uncompressed(b)
